@@ -100,6 +100,8 @@ pub fn run(name: &str, _seed: u64, tier: &str) -> Value {
         "c10_table" => crate::phys::c10_table(tier),
         #[cfg(feature = "physics")]
         "c19_sort" => crate::phys::c19_sort(tier),
+        #[cfg(feature = "physics")]
+        "c18_grid" => crate::drift::c18_grid(tier),
         "c13_dims" => crate::ring::c13_dims(tier),
         "c02_table" => crate::tables::c02_table(tier),
         "c03_table" => crate::tables::c03_table(tier),
